@@ -856,3 +856,92 @@ func reachingStores(at ssa.Instruction, a *ssa.Alloc) []*ssa.Store {
 	back(at.Block(), InstrIndex(at)-1)
 	return out
 }
+
+// BlockPath is a sequence of blocks.
+type BlockPath []*ssa.BasicBlock
+
+// EnumPaths enumerates the acyclic block paths that start with the edge from->to and end in a block
+// whose last instruction is a Return. It gives up (ok=false) beyond max paths or when a cycle is met.
+func EnumPaths(from, to *ssa.BasicBlock, max int) (paths []BlockPath, ok bool) {
+	ok = true
+	var cur BlockPath
+	onPath := map[*ssa.BasicBlock]bool{}
+	var walk func(b *ssa.BasicBlock)
+	walk = func(b *ssa.BasicBlock) {
+		if !ok {
+			return
+		}
+		if onPath[b] {
+			ok = false // cycle
+			return
+		}
+		cur = append(cur, b)
+		onPath[b] = true
+		if _, isRet := lastInstr(b).(*ssa.Return); isRet {
+			cp := make(BlockPath, len(cur))
+			copy(cp, cur)
+			paths = append(paths, cp)
+			if len(paths) > max {
+				ok = false
+			}
+		} else {
+			for _, s := range b.Succs {
+				walk(s)
+			}
+		}
+		onPath[b] = false
+		cur = cur[:len(cur)-1]
+	}
+	cur = append(cur, from)
+	onPath[from] = true
+	walk(to)
+	return paths, ok
+}
+
+// PhiOnPath resolves value v along a block path: phis are replaced by the edge value selected by
+// the predecessor on the path (repeatedly).
+func PhiOnPath(v ssa.Value, path BlockPath) ssa.Value {
+	for i := 0; i < 16; i++ {
+		phi, ok := v.(*ssa.Phi)
+		if !ok {
+			return v
+		}
+		idx := -1
+		for k, b := range path {
+			if b == phi.Block() {
+				idx = k
+			}
+		}
+		if idx <= 0 {
+			return v
+		}
+		pred := path[idx-1]
+		found := false
+		for k, pb := range phi.Block().Preds {
+			if pb == pred {
+				v = phi.Edges[k]
+				found = true
+				break
+			}
+		}
+		if !found {
+			return v
+		}
+	}
+	return v
+}
+
+// EdgeTaken reports, for an If-terminated block on the path, which successor index the path takes
+// (-1 if the block is not on the path or is last).
+func EdgeTaken(path BlockPath, b *ssa.BasicBlock) int {
+	for k, x := range path {
+		if x == b && k+1 < len(path) {
+			for i, s := range b.Succs {
+				if s == path[k+1] {
+					return i
+				}
+			}
+		}
+	}
+	return -1
+}
